@@ -410,6 +410,8 @@ def _param_key(param: t.Any) -> t.Any:
     Key identifying a type parameter. Unlike equality of `typing` objects, this
     distinguishes ``Union[int, float]`` from ``Union[float, int]`` (unions are tried left to right).
     """
+    if isinstance(param, list):
+        return tuple(map(_param_key, t.cast(t.List[t.Any], param)))  # e.g. the argument list of a ``Callable``
     args = t.get_args(param)
     if len(args):
         return (t.get_origin(param), getattr(param, '__metadata__', None), tuple(map(_param_key, args)))
